@@ -162,6 +162,7 @@ Definition virtual_memory (pagesize : Z) (meminfo : bytes) (zoneinfo : option by
   vm_of_dict pagesize d zoneinfo.
 
 (* ------------------------------------------------ swap_memory()
+   mul = PAGESIZE (see vm_field);
    sysinfo = (swap total, swap free, mem_unit) as cext.linux_sysinfo() returns them;
    vmstat = None : open() raised OSError. *)
 Record swapres := {
@@ -169,27 +170,29 @@ Record swapres := {
   s_warned : bool
 }.
 
-(* int(line.split(b' ')[1]) * 4 * 1024 *)
-Definition vm_field (line : bytes) : outcome Z :=
+(* int(line.split(b' ')[1]) * PAGESIZE
+   [mul] is the multiplier: the page size in the code as it is now (commit fe3ce75);
+   before that repair the code multiplied by the literal 4 * 1024 whatever the page size. *)
+Definition vm_field (mul : Z) (line : bytes) : outcome Z :=
   do t <- of_option IndexError (nth_error (split_on 32 line) 1);
   do v <- py_int t;
-  Val (v * 4 * 1024).
+  Val (v * mul).
 
 (* for line in f: ...; if sin is not None and sout is not None: break;  else: (zeros, warning) *)
-Fixpoint vmstat_loop (sin sout : option Z) (ls : list bytes) : outcome (option (Z * Z)) :=
+Fixpoint vmstat_loop (mul : Z) (sin sout : option Z) (ls : list bytes) : outcome (option (Z * Z)) :=
   match ls with
   | [] => Val None
   | l :: r =>
-    do st <- (if prefixb K_pswpin l then do v <- vm_field l; Val (Some v, sout)
-              else if prefixb K_pswpout l then do v <- vm_field l; Val (sin, Some v)
+    do st <- (if prefixb K_pswpin l then do v <- vm_field mul l; Val (Some v, sout)
+              else if prefixb K_pswpout l then do v <- vm_field mul l; Val (sin, Some v)
               else Val (sin, sout));
     match st with
     | (Some a, Some b) => Val (Some (a, b))
-    | (a, b) => vmstat_loop a b r
+    | (a, b) => vmstat_loop mul a b r
     end
   end.
 
-Definition swap_memory (meminfo : bytes) (sysinfo : Z * Z * Z) (vmstat : option bytes) : outcome swapres :=
+Definition swap_memory (mul : Z) (meminfo : bytes) (sysinfo : Z * Z * Z) (vmstat : option bytes) : outcome swapres :=
   do d <- parse_meminfo meminfo;
   let '(total, free) :=
     match dget K_SwapTotal d, dget K_SwapFree d with
@@ -200,7 +203,7 @@ Definition swap_memory (meminfo : bytes) (sysinfo : Z * Z * Z) (vmstat : option 
   let percent := usage_percent10 used total in
   do io <- match vmstat with
            | None => Val None
-           | Some c => vmstat_loop None None (lines_keep c)
+           | Some c => vmstat_loop mul None None (lines_keep c)
            end;
   Val match io with
       | Some (sin, sout) =>
